@@ -139,7 +139,7 @@ int xmp_next_position(xmp_context opaque)
 	if (p->pos < m->mod.len)
 		set_position(ctx, p->pos + 1, 1);
 
-	return p->pos;
+	return p->pos < 0 ? 0 : p->pos;
 }
 
 int xmp_prev_position(xmp_context opaque)
